@@ -15,6 +15,8 @@ class _Gen:
         self.lines = []
         self.loopdepth = 0
         self.forvars = []
+        self.in_boolop = 0
+        self.in_aug = 0
 
     def sid(self):
         self.site += 1
@@ -47,10 +49,13 @@ class _Gen:
         o = self.opts
         if depth >= 3:
             return self.atom() if r.chance(0.6) else self.ext(depth)
+        bw = (3 if boolish else 1.5) * o["boolop"]
+        if o["boolop_mode"] == "toplevel" and (depth > 0 or self.in_boolop or self.in_aug):
+            bw = 0
         kind = r.weighted([
             ("atom", 4), ("ext", 5),
             ("bin", 2), ("cmp", 2 + (2 if boolish else 0)),
-            ("boolop", (3 if boolish else 1.5) * o["boolop"]),
+            ("boolop", bw),
             ("not", 0.7 * o["unary"]),
         ])
         if kind == "atom":
@@ -70,7 +75,10 @@ class _Gen:
         if kind == "boolop":
             n = r.weighted([(2, 6), (3, 3), (4, 1)])
             op = r.choice([" and ", " or "])
-            return "(%s)" % op.join(self.expr(depth + 1, True) for _ in range(n))
+            self.in_boolop += 1
+            parts = [self.expr(depth + 1, True) for _ in range(n)]
+            self.in_boolop -= 1
+            return "(%s)" % op.join(parts)
         return "(not %s)" % self.expr(depth + 1, True)
 
     def test(self):
@@ -93,7 +101,10 @@ class _Gen:
         if form == "ext":
             return e
         if form == "and":
-            return "%s and %s" % (e, self.expr(1, True)) if r.chance(0.5) else "%s and %s" % (self.expr(1, True), e)
+            self.in_boolop += 1
+            other = self.expr(1, True)
+            self.in_boolop -= 1
+            return "%s and %s" % (e, other) if r.chance(0.5) else "%s and %s" % (other, e)
         if form == "cmp":
             return "%s %s %d" % (e, r.choice(["<", "!=", ">"]), r.randint(0, 2))
         return "%s or %s" % (e, self.atom())
@@ -133,7 +144,9 @@ class _Gen:
         if kind == "assign":
             self.emit(ind, "%s = %s" % (r.choice(LOCALS), self.expr()))
         elif kind == "aug":
+            self.in_aug += 1
             self.emit(ind, "%s %s= %s" % (r.choice(LOCALS), r.choice(["+", "-", "*"]), self.expr(1)))
+            self.in_aug -= 1
         elif kind == "expr":
             self.emit(ind, self.ext(0) if r.chance(0.7) else self.expr())
         elif kind == "pass":
@@ -158,7 +171,9 @@ class _Gen:
                 self.block(ind + 1, depth + 1, 2)
         elif kind == "for":
             avail = [v for v in LOOPVARS if v not in self.forvars]
-            var = r.choice(avail) if avail and r.chance(0.85) else r.choice(LOCALS)
+            var = r.choice(avail) if avail and (r.chance(0.85) or not o["for_target_local"]) else r.choice(LOCALS)
+            if var in LOCALS and not o["for_target_local"]:
+                var = LOOPVARS[0]
             self.emit(ind, "for %s in I(%d):" % (var, self.sid()))
             pushed = var in LOOPVARS
             if pushed:
@@ -194,6 +209,8 @@ def draw_opts(rng):
         "init_locals": rng.chance(0.85),
         "keep_loopvar": rng.choice([0.0, 0.5, 1.0]),
         "final_tuple": rng.chance(0.6),
+        "boolop_mode": rng.choice(["toplevel", "anywhere"]),
+        "for_target_local": rng.chance(0.4),
     }
 
 
